@@ -194,6 +194,45 @@ def h_variance(env, words, spec, n, complex_coefs=False, ident=False):
     env.check_eq(se, 0, "standard error without shots is 0")
 
 
+def h_scalar_types(env, method):
+    """AUXILIARY concrete shape (no solver role; the subject is Python / numpy TYPE dispatch on the coefficients): the same operator
+    with its coefficients stored as every numeric scalar type a user can obtain (Python int/float/complex, numpy integers, single
+    and double precision floats and complex numbers, with non-zero imaginary parts): get_expectation_value / get_variance /
+    get_standard_error of the real cirq backend equal the dense reference (1e-6 for single precision inputs, else 1e-9)"""
+    import math
+    from tangelo.linq import Circuit, Gate, get_backend
+    from tangelo.toolboxes.operators import QubitOperator
+    from openfermion import get_sparse_operator
+    words = [((0, "X"), (1, "Y")), ((0, "Z"),), ((1, "X"),), ((0, "Y"), (1, "Y"))]
+    base = [0.5 - 0.25j, -0.75 + 0.5j, 1.25 + 0.125j, 0.25 - 1.0j]
+    kinds = [("complex", complex, True), ("np.complex64", np.complex64, True), ("np.complex128", np.complex128, True),
+             ("float", float, False), ("np.float32", np.float32, False), ("np.float64", np.float64, False),
+             ("int", int, False), ("np.int64", np.int64, False), ("np.int8", np.int8, False)]
+    with shim.concrete_mode():
+        circ = Circuit([Gate("RY", 0, parameter=0.7), Gate("RX", 1, parameter=-1.1), Gate("CNOT", 1, 0), Gate("RZ", 1, parameter=0.4), Gate("H", 0)], n_qubits=2)
+        b = get_backend("cirq", n_shots=None)
+        _, sv = b.simulate(circ, return_statevector=True)
+        sv = np.asarray(sv, dtype=complex)
+        for name, ty, is_c in kinds:
+            op = QubitOperator()
+            ref_terms = {}
+            for w, c in zip(words, base):
+                v = ty(c) if is_c else ty(round(c.real * 4)) if "int" in name else ty(c.real)
+                op.terms[w] = v
+                ref_terms[w] = complex(v)
+            dense = {w: get_sparse_operator(QubitOperator(w, 1.0), n_qubits=2).toarray() for w in words}
+            e_ref = sum(c * (sv.conj() @ dense[w] @ sv) for w, c in ref_terms.items())
+            v_ref = sum(abs(c) ** 2 * (1 - (sv.conj() @ dense[w] @ sv).real ** 2) for w, c in ref_terms.items())
+            tol = 1e-5 if name in ("np.float32", "np.complex64") else 1e-9
+            if method == "get_expectation_value":
+                got, want = b.get_expectation_value(op, circ), e_ref
+            elif method == "get_variance":
+                got, want = b.get_variance(op, circ), v_ref
+            else:
+                got, want = b.get_standard_error(op, circ), 0.0
+            env.check_true(abs(complex(got) - complex(want)) < tol, f"{method} with {name} coefficients == dense reference", detail=f"got {got!r}, reference {want!r}")
+
+
 def h_sympy_expect(env, words, spec, n, canary=False):
     """the sympy backend (run for real on string parameters): get_expectation_value == <psi|H|psi>"""
     from tangelo.linq import Circuit, Gate, get_backend
@@ -494,6 +533,8 @@ def shapes(tier, seed):
             out.append(Shape(f"postselect/{route}/o{outcome}", h_postselect,
                              dict(words=[[(0, "X")], [(0, "Z"), (1, "Z")]], pre=[("RY", [0], []), ("CNOT", [1], [0])],
                                   post=[("RX", [1], [])], mq=0, outcome=outcome, n=2, route=route), modules=MODS))
+    for meth in ("get_expectation_value", "get_variance", "get_standard_error"):
+        out.append(Shape(f"aux/scalar-types/{meth}", h_scalar_types, dict(method=meth), modules=()))
     out.append(Shape("freq_mixed/0", h_freq_mixed, dict(word=[(0, "Z"), (1, "X")], pre=[("RY", [0], [])], post=[("CNOT", [1], [0])], mq=0, n=2),
                      modules=MODS, max_paths=32))
     for meth in ("get_variance", "get_standard_error"):
